@@ -669,6 +669,11 @@ theorem define_cli_step (f : Feature) (s : Seq) :
     ∃ t, Gen.defineStep f s = some [⟨t, s.bytes⟩] ∧ t.Perm (f :: s.feats) ∧ (Table.Ok s.feats → Table.Ok t) :=
   ⟨Table.insert s.feats f, Bridge.defineStep_eq f s, insert_perm _ _, fun h => Table.insert_ok _ _ h⟩
 
+example : ∃ t, Gen.defineStep ⟨"gene", .ranged 1 3 false false, []⟩ ⟨[⟨"source", .point 0, []⟩, ⟨"CDS", .point 4, []⟩], [65, 67, 71, 84, 65]⟩
+      = some [⟨t, [65, 67, 71, 84, 65]⟩] ∧
+    t.Perm (⟨"gene", .ranged 1 3 false false, []⟩ :: [⟨"source", .point 0, []⟩, ⟨"CDS", .point 4, []⟩]) ∧
+    (Table.Ok [⟨"source", .point 0, []⟩, ⟨"CDS", .point 4, []⟩] → Table.Ok t) := define_cli_step _ _
+
 /-- **`gts annotate`, the command as written**: the record gets every feature of the table file and loses none, and
 the table invariant is kept -/
 theorem annotate_cli_step (featin : List Feature) (s : Seq) :
